@@ -744,7 +744,7 @@ func viewsCase(in map[string]any) map[string]any {
 		}
 		svcs = append(svcs, e)
 	}
-	fe := map[string]any{"lk": fileAttrs(lf), "chain": []any{fileFs}, "feat": resolved(lf)}
+	fe := map[string]any{"lk": fileAttrs(lf), "chain": []any{fileFs}, "feat": resolved(lf), "ed": ed}
 	if rt != nil {
 		fe["rt"] = fileAttrs(rt)
 	}
